@@ -766,15 +766,14 @@ theorem test_timer_tie
 
   The translation treats plain `+ - * / % << >>`, indexing and `assert!` as total (wrapping / default) operations; whether
   they can fail is the subject of C14 (`Rngs.Checked.Jitter` states each of them with its check, `CheckedLemmasJitter`
-  proves that none fails).  The translator lists the partial operations it finds in each translated function, in source
-  order as `op:type`; the list must be the one below — the operations `Checked.Jitter` accounts for.  A source change
+  proves that none fails).  The translator lists the partial operations it finds in each translated function, as a sorted
+  list of `op:type`; the list must be the one below — the operations `Checked.Jitter` accounts for.  A source change
   that turns `wrapping_sub` into `-`, adds an index or an assertion changes the list and breaks the (C14) theorem. -/
 
 def partialOps : String → List String
-  | "random_loop_cnt" => ["+:u32", "-:u32", "/:u32", "<<:u64", "-:u64", ">>:u64"]
-  | "memaccess" => ["+:u32", "+:nat", "-:nat", "%:nat"]
-  | "test_timer" => ["+:u64", "+:u64", "+:i32", "%:i32", "+:u64", "-:i64", "+:u64", "*:u64", "*:u64", "/:u64", "*:u64", "/:u64",
-      "/:u64", "-:u32", "*:u32", "+:u32", "-:u32", "/:u32", "index"]
+  | "random_loop_cnt" => ["+:u32", "-:u32", "-:u64", "/:u32", "<<:u64", ">>:u64"]
+  | "memaccess" => ["%:nat", "+:nat", "+:u32", "-:nat"]
+  | "test_timer" => ["%:i32", "*:u32", "*:u64", "*:u64", "*:u64", "+:i32", "+:u32", "+:u64", "+:u64", "+:u64", "+:u64", "-:i64", "-:u32", "-:u32", "/:u32", "/:u64", "/:u64", "/:u64", "index"]
   | "set_rounds" => ["assert"]
   | _ => []
 
